@@ -526,6 +526,18 @@ func init() {
 		return ex.callFnNoIntrinsic(fr, fn, args)
 	}
 	intrinsics["time.Since"] = func(ex *Exec, fr *frame, fn *ssa.Function, args []Value) Value {
+		// Since(t) for a clock reading t = (a new, non-decreasing clock reading) - t; the monotonic clock of one
+		// process never runs backwards, so the difference is never negative
+		if st, ok := args[0].(Struct); ok && len(st) == 3 {
+			if ns, ok := st[0].(*T); ok {
+				if t0, ok := ex.timeOrigin[ns]; ok {
+					now := ex.timeNow().(Struct)
+					if t1, ok := ex.timeOrigin[now[0].(*T)]; ok {
+						return ex.c.Sub(t1, t0)
+					}
+				}
+			}
+		}
 		ex.nextOpaque++
 		d := ex.c.Var(fmt.Sprintf("since%d", ex.nextOpaque), BV(64))
 		ex.addPC(ex.c.And(ex.c.Sle(ex.intConst(0), d), ex.c.Sle(d, ex.intConst(1<<50))))
